@@ -228,8 +228,8 @@ func runC15(c *core.Ctx) error {
 		return err
 	}
 	avoid := c.KF.Avoid()
-	total := c.Pick(40, 1500)
-	chunks := c.Pick(4, 30)
+	total := c.Pick(100, 1500)
+	chunks := c.Pick(5, 30)
 	c.Ev.Coverage.Rule = "cases = (valid schema from the full profile, second schema with disjoint package) x plugin x variation in {rerun in fresh processes at GOMAXPROCS 1/4/16 (fresh map seeds), extra unrelated files in proto_file, single- vs multi-package invocation in both orders, file_to_generate reversed, each file of a multi-file package generated alone vs all together, semantics-preserving parameter spellings}; oracle = byte equality per generated file name. Non-trivial = schema emitting >= 2 files for the plugin, or with >= 3 headers, >= 2 enums, a second file, or unwrap; distinct by (schema, plugin, variation)."
 	c.Ev.Assumptions = []string{"map-order nondeterminism is probabilistic: each rerun is a fresh process with a fresh hash seed", "only parameter spellings the plugins document as equivalent are compared"}
 	prof := schema.ProfileFull(avoid)
@@ -296,6 +296,14 @@ func runC15(c *core.Ctx) error {
 					oo := o
 					fail = &oo
 				}
+			}
+			for _, tg := range []string{"second_file", "feat:unwrap_combined", "feat:unwrap_root_map", "feat:flatten", "header_override", "nested_type"} {
+				if hasTag(s, tg) {
+					c.Ev.Class("schema:"+tg, 1)
+				}
+			}
+			if len(s.Files) > 1 {
+				c.Ev.Class("schema:generate_files>=2", 1)
 			}
 			countAvoided(c, s, avoid)
 			if n <= 2 {
